@@ -22,7 +22,11 @@ def parse(s, i=0):
     return s[i:j], j
 def show(x): return x if isinstance(x, str) else "(" + " ".join(show(y) for y in x) + ")"
 t, _ = parse(goal)
-guard, body = (t[1], t[2]) if t[0] == "=>" else ("true", t)
+guards = []
+body = t
+while isinstance(body, list) and body and body[0] == "=>":
+    guards.append(body[1]); body = body[2]
+guard = ["and"] + guards if guards else "true"
 def flat(b):
     if isinstance(b, list) and b and b[0] == "and":
         r = []
